@@ -2,23 +2,34 @@
 from typing import Any, Callable, Dict, List
 
 
-def _strategy_offered_by(pack, strategy, parent, extra_offers=()):
-    """ids of the pack elements that offer `strategy` for class `parent` (the strategy itself, or a
-    factory yielding it / yielding a rule made by it)."""
+def _strategy_offered_by(pack, strategy, parent, extra_offers=(), children=()):
+    """ids of the pack elements that offer `strategy` for class `parent`: the strategy itself, a factory
+    yielding it for the parent, or a factory that - applied to the parent or to one of the rule's
+    children (factories may yield ready rules whose parent differs from the class they are given) -
+    yields a ready rule for `parent` made by it."""
     from comb_spec_searcher.strategies.rule import AbstractRule
     from comb_spec_searcher.strategies.strategy import AbstractStrategy, StrategyFactory
 
     out = []
     for el in list(pack) + list(extra_offers):
         if isinstance(el, StrategyFactory):
-            try:
-                for x in el(parent):
-                    s = x.strategy if isinstance(x, AbstractRule) else x
-                    if s == strategy:
-                        out.append(repr(el))
-                        break
-            except Exception:
-                pass
+            found = False
+            for given in (parent,) + tuple(children):
+                try:
+                    for x in el(given):
+                        if isinstance(x, AbstractRule):
+                            if x.strategy == strategy and x.comb_class == parent:
+                                found = True
+                        elif given == parent and x == strategy:
+                            found = True
+                        if found:
+                            break
+                except Exception:
+                    pass
+                if found:
+                    break
+            if found:
+                out.append(repr(el))
         elif isinstance(el, AbstractStrategy) and el == strategy:
             out.append(repr(el))
     return out
@@ -57,7 +68,7 @@ def rule_desc(rule, namer: Callable[[Any], str], pack, extra_offers=()) -> dict:
         except (StrategyDoesNotApply, Exception):
             d["reapplies"] = False
         if not d["empty_strategy"]:
-            d["offered"] = _strategy_offered_by(pack, rule.strategy, rule.comb_class, extra_offers)
+            d["offered"] = _strategy_offered_by(pack, rule.strategy, rule.comb_class, extra_offers, tuple(rule.children))
     return d
 
 
